@@ -1,4 +1,5 @@
 import Pms.Props.C08
+import Pms.Props.C08Mod
 
 #print axioms Pms.Sph.polyEval_scale
 #print axioms Pms.Sph.sqrt_scale
@@ -14,3 +15,4 @@ import Pms.Props.C08
 #print axioms Pms.Sph.C08_dispatch
 #print axioms Pms.Sph.C08_legendre_sanity
 #print axioms Pms.Sph.C08_unsold_poly
+#print axioms Pms.ModShape.C08_module_shape
